@@ -11,6 +11,33 @@ def hooks_commits():
         return []
 
 CHECKS = {
+ "C01": ("lattice", "exploration", "exhaustive enumeration of a fixed sphere lattice x all 30 resolutions against a containment oracle",
+         "Every point of a lattice built from the code's own case splits (12 faces, 30 edges, 20 vertices, sector seams, polar caps, antimeridian, every cell's vertices and edge midpoints with offsets down to 1e-9) is looked up at every resolution 0..29; the answer must be a canonical id of exactly that resolution whose planar polygon contains the point within a 4e-12 band, and for r<=12 whose reported boundary ring contains it (independent spherical test). Verdict is for the lattice, not the continuum.",
+         "Trusts the reference conversions (quadrature authalic latitude) and RefPlane distance; the planar oracle shares the forward projection with the subject, the spherical oracle only the public boundary call.", "4 C01"),
+ "C02": ("lattice", "exploration", "exhaustive enumeration of all cells up to a resolution bound x a 51-point interior lattice, exact id equality",
+         "Centres of all cells r<=6/9 and a 51-point strict-interior lattice of all cells r<=4/7, of digit-pattern families to r=29 and of pole/antimeridian cells must look up to the same id.",
+         "Points are classified strict-interior through the real forward projection of what is passed to the API; finer resolutions on families only.", "4 C02"),
+ "C04": ("lattice", "exploration", "exhaustive enumeration of all cells up to a resolution bound, independent spherical polygon area",
+         "Every cell r<=4/7 plus families to r=29 and pole/antimeridian cells: area measured from the reported boundary (32-64 segments per edge) with an independent spherical-polygon formula equals sphere/N within 1e-4; areas of a resolution sum to 4 pi; metadata table equals the quotient.",
+         "Trusts RefSphere area and the reference authalic conversion.", "4 C04"),
+ "C11": ("lattice", "exploration", "exhaustive enumeration of all cells up to a resolution bound x 12 option combinations",
+         "Every cell r<=3/6 plus pole/antimeridian cells at every finer resolution and families x closed/open x n in {1,2,3,7,64,default}: length, closure, finiteness, latitude range, orientation, centre inside, longitude window, corner identity.",
+         "Pole exemption decided on the n=64 ring with a 1e-3 cell-size margin.", "4 C11"),
+ "C12": ("lattice", "exploration", "exhaustive enumeration of all parents up to a resolution bound with all children, planar clipping",
+         "Every parent r<=4/7 and family parents to r=28 with all children: planar convex clipping shows shared interior, union cover > 1/2, centre distance <= 0.8 sqrt(parent area).",
+         "Trusts Sutherland-Hodgman clipping of convex polygons in the shared face plane.", "4 C12"),
+ "C15": ("lattice", "exploration", "exhaustive enumeration of sphere and plane lattices against an independent dodecahedron frame",
+         "Sphere lattice relative to nearest and second-nearest face of an independent regular dodecahedron, and a polar plane lattice on all 12 faces: inside/outside the face pentagon and round trips within 1e-12 / 1e-11.",
+         "Lattice verdict only; the frame and pentagon are first-principles constructions.", "4 C15"),
+ "C16": ("lattice", "exploration", "exhaustive enumeration of a plane lattice x subdivided probe triangles",
+         "Every lattice point of all 12 faces and of the reflected margin, on both sides of every seam and edge: spherical area of the unprojected probe / planar area equals 4 pi / (12 A_face) within 1e-4.",
+         "Probe discretisation error calibrated below 3e-6.", "4 C16"),
+ "C18": ("lattice", "exploration", "exhaustive enumeration of face pairs, relabellings and a sphere lattice against an independent frame",
+         "12 base cells against a first-principles dodecahedron in the documented orientation, all 66 pairs, true angular argmin on the lattice, all 60 quintant<->segment relabellings both ways.",
+         "Documented face numbering frozen in the reference.", "4 C18"),
+ "C19": ("lattice", "exploration", "exhaustive enumeration of a dyadic latitude grid and a lon/lat grid",
+         "All 2^18+1 / 2^21+1 grid latitudes: round trip, closed-form WGS84 agreement, oddness, strict monotonicity between adjacent points; lon/lat <-> sphere round trip on a grid with lon in [-540, 540].",
+         "Closed form (Snyder) and Gauss-Legendre quadrature references.", "4 C19"),
  # id: (engine, level category, technique, level text, level note, design ref)
  "C05": ("refmodel", "model_checking", "exhaustive reference-model conformance over all tuples (bounded resolution) and all short strings",
          "Every (face, quintant, position, resolution) tuple up to a resolution bound is enumerated and the real encoder/decoder must agree bit for bit with an independent statement of the documented layout; injectivity by sorting all produced ids; hex semantics on all strings of length <= 3 over a 24-symbol alphabet and structured 64-bit values. Deeper resolutions are covered on structured positions only.",
@@ -63,6 +90,7 @@ def main():
         "engines": [
             {"name": "refmodel", "path": "harness/src/checks/c05.rs", "serves_properties": ["C05"], "kind_free_text": "exhaustive tuple enumeration against an independent reference codec"},
             {"name": "graph", "path": "harness/src/checks/graph.rs", "serves_properties": ["C07", "C20"], "kind_free_text": "explicit-state BFS over the cell hierarchy through the real functions"},
+            {"name": "lattice", "path": "harness/src/checks/{lookup,cells,proj,frame}.rs", "serves_properties": ["C01","C02","C04","C11","C12","C15","C16","C18","C19"], "kind_free_text": "complete enumeration of finite lattices built from the code's case splits, with reference-geometry oracles"},
             {"name": "setmachine", "path": "harness/src/checks/sets.rs", "serves_properties": ["C08", "C09", "C10"], "kind_free_text": "stateright BFS of a cell-set machine + subset and permutation enumeration"},
         ],
         "checks": checks,
